@@ -354,14 +354,15 @@ func (sw *SingleAddressWallet) selectUTXOs(amount types.Currency, inputs int, us
 	// fund the transaction using the largest utxos first
 	var selected []types.SiacoinElement
 	var inputSum types.Currency
-	for i, sce := range utxos {
+	for _, sce := range utxos {
 		if inputSum.Cmp(amount) >= 0 {
-			utxos = utxos[i:]
 			break
 		}
 		selected = append(selected, sce.Share())
 		inputSum = inputSum.Add(sce.SiacoinOutput.Value)
 	}
+	// only the outputs that were not selected may be defragged
+	utxos = utxos[len(selected):]
 
 	if inputSum.Cmp(amount) < 0 && useUnconfirmed {
 		// try adding unconfirmed utxos.
